@@ -100,13 +100,16 @@ impl Property for C08 {
             Sig { name: "R".into(), bits: 64, kind: Kind::Out },
             Sig { name: "O".into(), bits: 64, kind: Kind::Out },
         ];
-        let spec = DriverSpec::honest(&sigs, Ch::new(&s[2]).u64(), Palette::Boundary);
+        // which call's value an expression sees is C04's business: the device of this profile
+        // answers the same on every call
+        let constant_device = true;
+        let spec = DriverSpec { constant: true, ..DriverSpec::honest(&sigs, Ch::new(&s[2]).u64(), Palette::Boundary) };
         // variables
         let nvars = ch.upto(5);
         let mut stmts = vec![];
         let mut vars: Vec<(String, bool)> = vec![];
         let mut values: BTreeMap<String, i64> = BTreeMap::new();
-        for name in ["a", "b", "c", "Q", "x1"].iter().take(nvars) {
+        for name in ["a", "b", "c", "d", "x1"].iter().take(nvars) {
             let v = match ch.weighted(&[3, 2, 2]) {
                 0 => *ch.choose(&BOUNDARY),
                 1 => ch.u64() as i64,
@@ -155,7 +158,7 @@ impl Property for C08 {
                         out.class("lazy-hazard");
                     }
                 }
-                Expr::Var(n) if (n == "Q" && !values.contains_key("Q")) || n == "R" => out.class("device-read"),
+                Expr::Var(n) if n == "Q" || n == "R" => out.class("device-read"),
                 Expr::Lit(_, r) if *r != Radix::Dec => out.class("radix-nondecimal"),
                 _ => {}
             });
@@ -186,7 +189,7 @@ impl Property for C08 {
             // outputs of the latest output-reading call before row k is evaluated: call k
             let outs_now: BTreeMap<String, OutVal> = [("Q", 1usize), ("R", 2usize)]
                 .iter()
-                .map(|(n, i)| (n.to_string(), spec.answer(k, *i)))
+                .map(|(n, i)| (n.to_string(), spec.answer(if constant_device { 0 } else { k }, *i)))
                 .collect();
             let want = eval_expr(e, &mut MapResolver { vars: Some(&values), outs: &outs_now });
             let want = match want {
